@@ -81,7 +81,25 @@ theorem parseAttribute_spelled {src : Str} {s s' : Lex.Stream} {t : Token} (hw :
       · simp only [Option.bind_eq_bind, Option.bind_eq_some_iff, Option.some.injEq,
           Prod.mk.injEq] at h
         obtain ⟨⟨p, l, s2⟩, h2, s3, h3, ⟨q, s4⟩, h4, s5, h5, s6, h6, rfl, rfl⟩ := h
-        exact ⟨consumeQName_name hw1 h2, rfl, rfl⟩
+        refine ⟨⟨consumeQName_name hw1 h2, q, (sliceBack s.skipSpaces s3).text, (consumeQuote_text h4).2, ?_, ?_⟩,
+          rfl, rfl⟩
+        · -- the whole span: name, `=`, quote, value, quote
+          have r13 : Reach s.skipSpaces s3 := (consumeQName_reach h2).trans (consumeEq_reach h3)
+          have r34 : Reach s3 s4 := consumeQuote_reach h4
+          have r45 : Reach s4 s5 := skipChars_reach h5
+          have r56 : Reach s5 s6 := consumeByte_reach h6
+          show (sliceBack s.skipSpaces s6).text = _
+          rw [Reach.text_split r13 ((r34.trans r45).trans r56), Reach.text_split r34 (r45.trans r56),
+            Reach.text_split r45 r56, (consumeQuote_text h4).1, consumeByte_text h6]
+          rfl
+        · -- the value starts one byte (the quote) after the text in front of it
+          have r13 : Reach s.skipSpaces s3 := (consumeQName_reach h2).trans (consumeEq_reach h3)
+          have r34 : Reach s3 s4 := consumeQuote_reach h4
+          show s4.pos = s.skipSpaces.pos + strLen (sliceBack s.skipSpaces s3).text + 1
+          rw [Reach.pos_eq r34, Reach.pos_eq r13, (consumeQuote_text h4).1]
+          have : strLen [q] = 1 := by
+            rcases (consumeQuote_text h4).2 with rfl | rfl <;> decide
+          rw [this]
 
 /-- `parse_close_element` on a stream that begins `</`. -/
 theorem parseCloseElement_spelled {src : Str} {s s' : Lex.Stream} {t : Token} (hw : SWf src s)
